@@ -41,6 +41,10 @@ fn pool(src: u8, rich: bool) -> Vec<MapSpec> {
     } else {
         v.push(MapSpec::new(src, vec![o(Kind::Circle, 0, PosK::Same, 0, 0), o(Kind::Slider2, 150, PosK::Far, 8, 0), o(Kind::Circle, 400, PosK::Far, 0, 0), o(Kind::Spinner(600), 150, PosK::Same, 0, 0), o(Kind::Circle, 1000, PosK::Far, 2, 0)]));
         v.push(MapSpec::new(src, vec![o(Kind::SliderLong, 0, PosK::Same, 0, 0), o(Kind::Circle, 600, PosK::Near, 0, 0), o(Kind::Circle, 100, PosK::Far, 8, 0), o(Kind::Circle, 100, PosK::Far, 0, 0)]));
+        // same-spot objects around the stacking threshold (approach time x stack leniency), and closer than the approach time
+        for g in [300u32, 450, 600, 750, 900, 1200] {
+            v.push(MapSpec::new(src, vec![o(Kind::Circle, 0, PosK::Same, 0, 0), o(Kind::Circle, g, PosK::Same, 0, 0), o(Kind::Slider2, g, PosK::Same, 0, 0), o(Kind::Circle, g / 2, PosK::Near, 0, 0)]));
+        }
         if rich {
             v.push(MapSpec { diff: gen::DiffPreset::D2, timing: gen::Timing::T1, ..MapSpec::new(src, vec![o(Kind::Circle, 0, PosK::Same, 0, 0), o(Kind::Buzz, 150, PosK::Far, 0, 0), o(Kind::Circle, 300, PosK::Far, 4, 0), o(Kind::Slider1, 150, PosK::Far, 0, 0)]) });
             v.push(MapSpec { diff: gen::DiffPreset::D1, ..MapSpec::new(src, vec![o(Kind::Circle, 0, PosK::Same, 0, 0), o(Kind::Circle, 150, PosK::Same, 0, 0), o(Kind::Circle, 150, PosK::Far, 0, 0)]) });
@@ -201,6 +205,38 @@ fn main() {
                 l.violation(&format!("rate_{}", kname.replace('/', "").to_lowercase()), || {
                     format!("cfg={cfg:?} lazer {kname} speed_change={rate} vs the same mods with clock_rate({rate}): {msg}\nspec={}\n--- .osu ---\n{}", spec.describe(), spec.text())
                 });
+                return;
+            }
+            // the plain (legacy) rate mod at its default speed with the rate pinned explicitly: the explicit clock rate wins
+            // everywhere (the mods' own rate must not leak into anything)
+            if kind == 0 && rate != 1.0 {
+                let bit = if rate > 1.0 { settings::DT } else { settings::HT };
+                for extra_bits in [0, settings::FL | settings::HD] {
+                    let lz = {
+                        use rosu_pp::model::mods::rosu_mods::generated_mods::{DoubleTimeCatch, DoubleTimeMania, DoubleTimeOsu, DoubleTimeTaiko, HalfTimeCatch, HalfTimeMania, HalfTimeOsu, HalfTimeTaiko};
+                        let Some(mut m) = GameModsIntermode::from_bits(extra_bits).try_with_mode(mods_mode(cfg.dst)) else { continue };
+                        m.insert(match (cfg.dst, rate > 1.0) {
+                            (0, true) => GameMod::DoubleTimeOsu(DoubleTimeOsu { speed_change: sc, ..Default::default() }),
+                            (1, true) => GameMod::DoubleTimeTaiko(DoubleTimeTaiko { speed_change: sc, ..Default::default() }),
+                            (2, true) => GameMod::DoubleTimeCatch(DoubleTimeCatch { speed_change: sc, ..Default::default() }),
+                            (_, true) => GameMod::DoubleTimeMania(DoubleTimeMania { speed_change: sc, ..Default::default() }),
+                            (0, false) => GameMod::HalfTimeOsu(HalfTimeOsu { speed_change: sc, ..Default::default() }),
+                            (1, false) => GameMod::HalfTimeTaiko(HalfTimeTaiko { speed_change: sc, ..Default::default() }),
+                            (2, false) => GameMod::HalfTimeCatch(HalfTimeCatch { speed_change: sc, ..Default::default() }),
+                            (_, false) => GameMod::HalfTimeMania(HalfTimeMania { speed_change: sc, ..Default::default() }),
+                        });
+                        GameMods::from(m)
+                    };
+                    let c = run(lz, &|d| d, map, cfg.dst);
+                    let e = run(GameMods::from(bit | extra_bits), &|d| d.clock_rate(rate), map, cfg.dst);
+                    l.checked(10);
+                    if let Some(msg) = differ(&c, &e) {
+                        l.violation("rate_legacy_plus_clock_rate", || {
+                            format!("cfg={cfg:?} lazer DT/HT speed_change={rate} (+ mods bits {extra_bits}) vs legacy bits {} with clock_rate({rate}): {msg}\nspec={}\n--- .osu ---\n{}", bit | extra_bits, spec.describe(), spec.text())
+                        });
+                        return;
+                    }
+                }
             }
         });
 
